@@ -28,6 +28,7 @@ KA == <<97>>
 
 ErrExprs == [
   Undefined        |-> Nm(<<110, 111, 112, 101>>),
+  UndefinedShorthand |-> EObj(<<Pair(EStr(KA), I(1)), Short(Vv), Short(Nm(<<110, 111, 112, 101>>)), Short(Nm(<<122, 122>>))>>),
   InvalidOpTypes   |-> EBin("+", I(1), EStr(<<115>>)),
   InvalidEqOpTypes |-> EBin("==", EList(<<I(1), EList(<<I(2)>>)>>), EList(<<I(1), EList(<<ENull>>)>>)),
   IntOverflow      |-> EBin("/", I(1), I(0)),
